@@ -32,6 +32,7 @@ type Contract struct {
 	Key        string // e.g. codec.V2.ReadHeaderWithValidation, sharding.GenerateShards
 	Props      []string
 	Requires   []*Clause
+	Ghosts     []QVar // ghost parameters: chosen by the caller (existential at call sites)
 	Ensures    []*Clause
 	Assumes    []*Clause
 	LoopInv    map[int][]*Clause
@@ -237,6 +238,14 @@ func ParseSpecFile(path string, pkgName string) (*SpecFile, error) {
 			pn, r2 := splitWord(rest)
 			k, r3 := splitWord(r2)
 			pend = &pending{kind: "cb:" + pn + ":" + k, text: r3, line: ln}
+		case "ghost":
+			// ghost <name> <type>: a specification-only parameter
+			gn, gt := splitWord(rest)
+			if cur == nil || gn == "" || strings.TrimSpace(gt) == "" {
+				errs = append(errs, fmt.Sprintf("%s:%d: ghost <name> <type>", path, ln))
+				continue
+			}
+			cur.Ghosts = append(cur.Ghosts, QVar{Name: gn, Type: strings.TrimSpace(gt)})
 		case "trusted":
 			cur.Trusted = true
 		case "pure":
@@ -1032,4 +1041,43 @@ func parseModEntry(part string) (Expr, error) {
 		return &ECall{Fun: &EIdent{Name: "fields"}, Args: []Expr{&EIdent{Name: strings.TrimSpace(p[7 : len(p)-1])}}}, nil
 	}
 	return ParseExpr(p)
+}
+
+// mentionsAny reports whether e refers to one of the names as a free identifier.
+func mentionsAny(e Expr, names map[string]bool) bool {
+	switch x := e.(type) {
+	case *EIdent:
+		return names[x.Name]
+	case *EBin:
+		return mentionsAny(x.L, names) || mentionsAny(x.R, names)
+	case *EUn:
+		return mentionsAny(x.X, names)
+	case *ECall:
+		if mentionsAny(x.Fun, names) {
+			return true
+		}
+		for _, a := range x.Args {
+			if mentionsAny(a, names) {
+				return true
+			}
+		}
+	case *ESel:
+		return mentionsAny(x.X, names)
+	case *EIndex:
+		return mentionsAny(x.X, names) || mentionsAny(x.I, names)
+	case *ESlice:
+		return mentionsAny(x.X, names) || (x.Lo != nil && mentionsAny(x.Lo, names)) || (x.Hi != nil && mentionsAny(x.Hi, names))
+	case *EQuant:
+		inner := map[string]bool{}
+		for k, v := range names {
+			inner[k] = v
+		}
+		for _, q := range x.Vars {
+			delete(inner, q.Name)
+		}
+		return mentionsAny(x.Body, inner)
+	case *EOld:
+		return mentionsAny(x.X, names)
+	}
+	return false
 }
